@@ -152,6 +152,17 @@ impl World {
         }
     }
 
+    fn step_tn(&mut self, r: u32) -> String {
+        match self.tx.as_mut().expect("tx role").next_sendable_frame() {
+            Some(sf) => {
+                let s = verif::sendable_slot(&sf);
+                self.regs.insert(r, H::Sendable(sf));
+                format!("some.{s}")
+            }
+            None => "none".into(),
+        }
+    }
+
     fn step_inner(&mut self, op: &str) -> String {
         let f: Vec<&str> = op.split(',').collect();
         let reg = |i: usize| f[i].parse::<u32>().unwrap();
@@ -221,14 +232,15 @@ impl World {
                 }
                 _ => "bad-op".into(),
             },
-            "tn" => match self.tx.as_mut().expect("tx role").next_sendable_frame() {
-                Some(sf) => {
-                    let s = verif::sendable_slot(&sf);
-                    self.regs.insert(reg(1), H::Sendable(sf));
-                    format!("some.{s}")
+            "tn" => {
+                // like a poll of `tx_rx_task`: the task's "woken" bit is consumed, the waker registered anew, then
+                // the scan; a wake-up that arrives from here on is remembered in `tx_woken`
+                if let Some(tx) = self.tx.as_ref() {
+                    self.tx_woken.0.store(false, std::sync::atomic::Ordering::SeqCst);
+                    tx.replace_waker(&std::task::Waker::from(self.tx_woken.clone()));
                 }
-                None => "none".into(),
-            },
+                self.step_tn(reg(1))
+            }
             "ts" => {
                 let Some(H::Sendable(sf)) = self.regs.remove(&reg(1)) else { return "bad-op".into() };
                 let outcome: u32 = f[2].parse().unwrap();
